@@ -1325,6 +1325,7 @@ macro_rules! impl_binop_assign {
                         self.data[i].$method(IArray::get_int(rhs, i).unwrap_or(I1::ZERO));
                     }
                 }
+                self.mod2n(self.length);
             }
         }
 
@@ -1346,6 +1347,7 @@ macro_rules! impl_binop_assign {
                 for i in 0..N {
                     self.data[i].$method(IArray::get_int(rhs, i).unwrap_or(I::ZERO));
                 }
+                self.mod2n(self.length);
             }
         }
 
